@@ -4,15 +4,57 @@ import RawPanelVerif.Lemmas.DecShape
 import RawPanelVerif.Lemmas.DecSound2
 import RawPanelVerif.Lemmas.DecSound3
 import RawPanelVerif.Lemmas.DecGfx3
+import RawPanelVerif.Lemmas.EncDom3
+import RawPanelVerif.Lemmas.DecFacts
+import RawPanelVerif.Lemmas.StripIdem
 /-!
 # C02 — inbound ASCII lines decode to exactly the panel state they denote
+
+Statements are about the decoder model `Model.In.decInE` (= `RawPanelASCIIstringsToInboundMessages` after the `fix:`
+commits, tied by the correspondence) and the independent reader `Spec.In.readInbound` (DESIGN.md Appendix B).
 
 Kernels, each for ALL values by arithmetic:
 * `packed_total_mode`, `packed_total_ext`, `packed_total_color` — for every value `v < 2^32` (in particular the whole
   16-bit space) and every id list, the effects of the message the decoder builds equal the reference reading of `v`
   on every id;
 * `colour_readability_bit_irrelevant` — bit 7 of a colour integer changes nothing (reader and decoder);
-* `brightness_one_two` — `PanelBrightness=n` and `PanelBrightness=n,n` decode to the same message / effect.
+* `brightness_one_two_model`, `brightness_one_two_spec` — `PanelBrightness=n` and `PanelBrightness=n,n` decode to the same
+  message / effect;
+* `text_total` — `decText` against `readText` on every well-formed `HWCt#` value (all 21 fields, every presence pattern);
+  `text_prefixes` — the property's "trailing fields omitted": all 22 prefixes of a full value, evaluated;
+* `simple_vs_advanced_gfx_model`, `simple_vs_advanced_gfx_spec` — a header-less part 0 opens exactly the transfer the
+  header `/2,64x32` opens (decoder state and reader state).
+
+Main theorems (line sequences of any length, any interleaving):
+* `dec_sound` (guard `noBlankImage`, `dec_sound_guard_exact`, `dec_sound_blank_image_counterexample`, `dec_sound_nb`),
+  `nongrammar_silent`, `nongrammar_decLine`, `gfx_part_step`, `gfx_line`, `dec_sound_nogfx`, `dec_sound_partial` — see the
+  section comments below.
+* `enc_in_domain`, `roundtrip_in` — C01 and C02 composed: for messages of `inDomainIn` (plus the decidable
+  `roundtripGuard`, without which both are false: `enc_in_domain_flag_counterexample`,
+  `roundtrip_in_unguarded_counterexample`, `roundtrip_in_calibration_counterexample`) the encoder's lines are in
+  `inDomainLines` and decode to messages with exactly the effects of the original messages.
+
+JSON lines (`{…}`, `[…]`): the reference reader AND the decoder model take the parsed state / message list from the SAME
+oracle `O` (= what `encoding/json` returned for that line, computed by the harness).  For these lines the theorems say
+only that the decoder passes the parsed state on unchanged, in place and in order; there is no second, independent
+reading of the JSON text.  (`jsonOracle` + examples: a non-default oracle with JSON lines between other families.)
+
+Outside the domain (`inDomainLines` false): interleaved graphics transfers (`foreign_part_divergence`,
+`foreign_format_divergence`: the decoder ignores parts of a foreign id list / format, the reader abandons; the protocol is
+silent), `Flag#A=1` (`flag_letter_id_out_of_domain_behaviour`), arguments beyond 32 / 64 bits
+(`uint32_arg_wrap_…`, `int32_arg_wrap_…` for all values, `numeric_overflow_…`), non-canonical base64
+(`noncanonical_base64_…`): the model's behaviour (= the Go code's, by the correspondence on these very lines) is pinned
+so that a change breaks a proof; none of it is a finding.
+
+Tie of the six hand-written byte matchers to the Go regular expressions: `regex_sources_tie` (literal sources),
+`regex_keywords_tie` / `regex_gfx_optional_groups` (alternation lists read out of the regenerated sources = keyword
+tables, same order), and the bounded-exhaustive `din.match` / `din.rx` records against the library's real `regexp`
+objects (harness/rxlink.go).
+
+The concrete witnesses (`jsonOracle`, `jsonLines`, `interleavedXfer`, `fullText`, `hugeFlag`, `badCal`, `rtSample`, the
+literal `src_*`, and the `Option` / effect views `decoded`, `decodedEffects` of the decoder's result) are defined in
+Lemmas/DecFacts.lean together with the kernel-evaluated closed facts (`<theorem>_fact`, `decide +kernel`) that the
+evaluated theorems below re-export.
 -/
 namespace RawPanelVerif.C02
 open RawPanelVerif RawPanelVerif.Bytes RawPanelVerif.MsgIn RawPanelVerif.Model.In RawPanelVerif.InBits RawPanelVerif.TotalIn
@@ -310,5 +352,283 @@ theorem nongrammar_decLine (O : Oracles) (pinned : Bool) (st : DecSt) (l : Bytes
 
 example : classify default (asc "Memx=1") = .nonGrammar ∧ classify default (asc "hello world") = .nonGrammar ∧
     classify default (asc "HWCy#1=2") = .nonGrammar := by decide
+
+/-! ## JSON lines: reader and decoder consult the SAME oracle
+
+`Spec.readLine` gives a `{…}` line the effects of `O.parseState l` and a `[…]` line those of `O.parseMsgs l`;
+`Model.decLine` appends `stateMsg (O.parseState l)` / the non-nil elements of `O.parseMsgs l`.  `O` is what
+`encoding/json` returned for that very line (computed by the harness, record part `J`).  So for JSON lines `dec_sound`
+says only: the decoder passes on, unchanged, in place and in order, whatever `encoding/json` parsed (no second reading of
+the JSON text exists in this check).  `jsonOracle` is a concrete non-default oracle; the example puts JSON lines between
+other families. -/
+
+example : inDomainLines jsonOracle jsonLines = true ∧ noBlankImage jsonOracle none jsonLines = true := example_fact_1
+
+/-- `dec_sound` applied to it: the JSON state has its effect on both ids, the array's messages follow in order, the
+`null` element contributes nothing -/
+example : ∃ ms, decInE jsonOracle jsonLines = .ok ms ∧ ms.flatMap effectsOfMsgOpt =
+    [.setMode 1 { state := 4, output := false, blink := 0 }, .setMode 5 { state := 4, output := false, blink := 3 },
+     .setMode 6 { state := 4, output := false, blink := 3 }, .flow .ping, .cmd .clearAll, .setColor 2 (.index 2)] := by
+  obtain ⟨ms, h1, h2⟩ := dec_sound jsonOracle jsonLines jsonLines_dom_fact jsonLines_nb_fact
+  exact ⟨ms, h1, by rw [h2]; exact jsonLines_effects_fact⟩
+
+/-! ## outside the domain: what decoder and reader do there
+
+`inDomainLines` excludes (a) interleaved graphics transfers, (b) grammar keywords with arguments that are no protocol
+numerals, (c) non-canonical base64.  The protocol is silent there (DESIGN.md Appendix B; C05's `checkSafety` accepts
+both a decoder that aborts on a stray chunk and one that ignores it), so these are no findings — but the behaviour of
+the model (= the Go code, by the correspondence on exactly these lines) is pinned here, so that a change shows. -/
+
+/-- **foreign part**: `gfxDiscipline` expels the sequence (the reference reader abandons a transfer at a part of
+another one: it delivers nothing), while the decoder (after `fix:` 87cf381) ignores parts whose id list is not the open
+transfer's and delivers B.  B0 restarts, so A is lost for both. -/
+theorem foreign_part_divergence :
+    interleavedXfer.all (fun l => classify default l == .wellFormed) = true ∧ inDomainLines default interleavedXfer = false ∧
+    readInbound default interleavedXfer = [] ∧
+    decodedEffects default interleavedXfer = [.setGfx 2 { kind := .mono, w := 8, h := 8, xy := none, data := [1, 2, 3, 4, 5, 6] }] :=
+  foreign_part_divergence_fact
+
+/-- a foreign part of ANOTHER FORMAT (`HWCgRGB#` inside an `HWCg#` transfer) is ignored by the decoder likewise; the
+reader abandons -/
+theorem foreign_format_divergence :
+    inDomainLines default [asc "HWCg#1=0/1,8x8:AAAA", asc "HWCgRGB#1=1:AQID", asc "HWCg#1=1:BAUG"] = false ∧
+    readInbound default [asc "HWCg#1=0/1,8x8:AAAA", asc "HWCgRGB#1=1:AQID", asc "HWCg#1=1:BAUG"] = [] ∧
+    decodedEffects default [asc "HWCg#1=0/1,8x8:AAAA", asc "HWCgRGB#1=1:AQID", asc "HWCg#1=1:BAUG"] =
+      [.setGfx 1 { kind := .mono, w := 8, h := 8, xy := none, data := [0, 0, 0, 4, 5, 6] }] :=
+  foreign_format_divergence_fact
+
+/-- `Atoi` on a string that starts with a byte that is neither a digit nor a sign: 0 -/
+theorem atoiV_syntax (c : UInt8) (cs : Bytes) (hd : isDigit c = false) (h45 : c ≠ 45) (h43 : c ≠ 43) : atoiV (c :: cs) = 0 := by
+  unfold atoiV
+  split
+  · rename_i e; injection e with e1 _; exact absurd e1 h45
+  · rename_i e; injection e with e1 _; exact absurd e1 h43
+  · simp only [List.cons_ne_nil, if_false]
+    simp [scanU, hd]
+
+/-- **`Flag#A=1`** (`regex_registers` lets `[A-Z0-9]*` through for `Flag#` too; the grammar wants digits): the decoder
+writes FLAG register "0" (`Atoi` error value), the reader reads nothing; outside the domain -/
+theorem flag_letter_id_out_of_domain_behaviour :
+    classify default (asc "Flag#A=1") = .outside ∧ readInbound default [asc "Flag#A=1"] = [] ∧
+    decoded default [asc "Flag#A=1"] = some [some (regMsg { reg := 1, id := asc "0", value := 1 })] ∧
+    decoded default [asc "Flag#A7=0"] = some [some (regMsg { reg := 1, id := asc "0", value := 0 })] ∧
+    decoded default [asc "Flag#7A=5"] = some [some (regMsg { reg := 1, id := asc "0", value := 1 })] :=
+  flag_letter_id_out_of_domain_behaviour_fact
+
+/-- in the domain the FLAG id is the number read: leading zeros go (`Flag#007=2` is flag 7, value = "set") -/
+example : classify default (asc "Flag#007=2") = .wellFormed ∧
+    decoded default [asc "Flag#007=2"] = some [some (regMsg { reg := 1, id := asc "7", value := 1 })] ∧
+    readInbound default [asc "Flag#007=2"] = [.reg .flag (asc "7") 1] := example_fact_2
+
+/-- **command arguments beyond 32 bits** (no `num`, outside the domain): `uint32` arguments are reduced modulo 2^32 … -/
+theorem uint32_arg_wrap_out_of_domain_behaviour (s : Bytes) (n : Nat) (hn : n ≤ 9223372036854775807) :
+    decSingle [s, asc "HeartBeatTimer", utoa n] = .ok (some (cmdOnly { setHeartBeatTimer := some (n % 4294967296) })) := by
+  have ha : atoiV (utoa n) = (n : Int) := atoiV_itoa (n : Int) (by unfold minInt64; omega) (by unfold maxInt64; omega)
+  simp only [decSingle, sub, bind, Except.bind, pure, Except.pure, List.getElem?_cons_succ, List.getElem?_cons_zero]
+  rw [if_pos trivial, ha]
+  congr 4
+
+/-- … `int32` (enum) arguments wrap to the signed range -/
+theorem int32_arg_wrap_out_of_domain_behaviour (s : Bytes) (n : Nat) (hn : n ≤ 9223372036854775807) :
+    decSingle [s, asc "SleepMode", utoa n] =
+      .ok (some (cmdOnly { setSleepMode := some (((n : Int) + 2147483648) % 4294967296 - 2147483648) })) := by
+  have ha : atoiV (utoa n) = (n : Int) := atoiV_itoa (n : Int) (by unfold minInt64; omega) (by unfold maxInt64; omega)
+  simp only [decSingle, sub, bind, Except.bind, pure, Except.pure, List.getElem?_cons_succ, List.getElem?_cons_zero]
+  rw [if_pos trivial, ha]
+  rfl
+
+/-- whole lines: 2^32 wraps to 0, 2^32+1 to 1, 2^31 to the most negative enum value; beyond 64 bits `Atoi` clamps to
+`MaxInt64` (low 32 bits all ones); a packed state integer beyond 64 bits likewise -/
+theorem numeric_overflow_out_of_domain_behaviour :
+    classify default (asc "HeartBeatTimer=4294967296") = .outside ∧
+    decoded default [asc "HeartBeatTimer=4294967296"] = some [some (cmdOnly { setHeartBeatTimer := some 0 })] ∧
+    decoded default [asc "SleepMode=4294967297"] = some [some (cmdOnly { setSleepMode := some 1 })] ∧
+    decoded default [asc "SleepMode=2147483648"] = some [some (cmdOnly { setSleepMode := some (-2147483648) })] ∧
+    decoded default [asc "HeartBeatTimer=99999999999999999999"] = some [some (cmdOnly { setHeartBeatTimer := some 4294967295 })] ∧
+    decoded default [asc "HWC#1=99999999999999999999"] =
+      some [some (stateMsg { ids := [1], mode := some { state := 15, output := true, blink := 15 } })] ∧
+    readInbound default [asc "HeartBeatTimer=4294967296", asc "SleepMode=4294967297", asc "HWC#1=99999999999999999999"] = [] :=
+  numeric_overflow_out_of_domain_behaviour_fact
+
+example : decSingle [[], asc "HeartBeatTimer", utoa 4294967301] = .ok (some (cmdOnly { setHeartBeatTimer := some 5 })) :=
+  uint32_arg_wrap_out_of_domain_behaviour [] 4294967301 (by decide)
+
+/-- **non-canonical base64** (outside the domain): padding bits that are not zero (`QR==`) are accepted by
+`base64.StdEncoding` and by the reader alike — same image; a payload `DecodeString` rejects (`QQ=`, short padding) makes the
+decoder drop the transfer (no message at all) while the lenient reference reader would deliver what it could decode -/
+theorem noncanonical_base64_out_of_domain_behaviour :
+    classify default (asc "HWCg#1=0/0,1x1:QR==") = .outside ∧
+    decodedEffects default [asc "HWCg#1=0/0,1x1:QR=="] = [.setGfx 1 { kind := .mono, w := 1, h := 1, xy := none, data := [65] }] ∧
+    readInbound default [asc "HWCg#1=0/0,1x1:QR=="] = [.setGfx 1 { kind := .mono, w := 1, h := 1, xy := none, data := [65] }] ∧
+    classify default (asc "HWCg#1=0/0,1x1:QQ=") = .outside ∧
+    decoded default [asc "HWCg#1=0/0,1x1:QQ="] = some [] ∧
+    readInbound default [asc "HWCg#1=0/0,1x1:QQ="] = [.setGfx 1 { kind := .mono, w := 1, h := 1, xy := none, data := [] }] :=
+  noncanonical_base64_out_of_domain_behaviour_fact
+
+/-! ## alternative spellings named by the property text -/
+
+/-- **text lines with trailing fields omitted**: every prefix length 0..21 of the full value is a well-formed text value
+and the record the decoder builds means what the reader reads (instances of `text_total`, evaluated) -/
+theorem text_prefixes : ∀ n ∈ List.range 22,
+    textWellFormed (join 124 (fullText.take n)) = true ∧
+    readText (join 124 (fullText.take n)) = some (normText (textOf (decText (join 124 (fullText.take n))))) :=
+  text_prefixes_fact
+
+example : join 124 (fullText.take 4) = asc "-12|3|45|Title" := by decide
+
+/-- **simple three-line vs advanced graphics**: a header-less part 0 puts the decoder's reassembly state exactly where
+the header `/2,64x32` puts it — for every format keyword, id list, payload and previous state (`s`, `s'` are the
+whole-line sub-matches, which `decGfx` does not read) -/
+theorem simple_vs_advanced_gfx_model (pinned : Bool) (st : GfxSt) (s s' kw ids d : Bytes) :
+    decGfx pinned st [s, kw, ids, asc "0", [], [], [], [], [], [], [], d] =
+    decGfx pinned st [s', kw, ids, asc "0", asc "/2,64x32", asc "2", asc "64", asc "32", [], [], [], d] := by
+  have e0 : atoiV (asc "0") = 0 := by decide
+  have e2 : atoiV (asc "2") = 2 := by decide
+  have e64 : u32 (atoiV (asc "64")) = 64 := by decide
+  have e32 : u32 (atoiV (asc "32")) = 32 := by decide
+  have en : u32 (atoiV []) = 0 := by decide
+  simp only [decGfx, sub, bind, Except.bind, pure, Except.pure, List.getElem?_cons_succ, List.getElem?_cons_zero,
+    e0, e2, e64, e32, en, if_true, List.length_nil, Nat.lt_irrefl, decide_false, if_false,
+    show (asc "/2,64x32").length > 0 from by decide]
+
+/-- … and the reference reader opens the same transfer for both spellings -/
+theorem simple_vs_advanced_gfx_spec (x : Option Xfer) (p : GfxPart) (h0 : p.index = 0) :
+    stepGfx x { p with header := none } = stepGfx x { p with header := some (2, 64, 32, none) } := by
+  unfold stepGfx
+  simp only [h0, if_true, true_or, and_true]
+
+/-- whole lines: the two spellings of a 64×32 transfer decode to the same messages, whose effect is the reader's -/
+example :
+    decoded default [asc "HWCgRGB#4,5=0:AAEC", asc "HWCgRGB#4,5=1:", asc "HWCgRGB#4,5=2:AwQF"] =
+      decoded default [asc "HWCgRGB#4,5=0/2,64x32:AAEC", asc "HWCgRGB#4,5=1:", asc "HWCgRGB#4,5=2:AwQF"] ∧
+    decodedEffects default [asc "HWCgRGB#4,5=0:AAEC", asc "HWCgRGB#4,5=1:", asc "HWCgRGB#4,5=2:AwQF"] =
+      readInbound default [asc "HWCgRGB#4,5=0/2,64x32:AAEC", asc "HWCgRGB#4,5=1:", asc "HWCgRGB#4,5=2:AwQF"] ∧
+    readInbound default [asc "HWCgRGB#4,5=0:AAEC", asc "HWCgRGB#4,5=1:", asc "HWCgRGB#4,5=2:AwQF"] =
+      [.setGfx 4 { kind := .rgb, w := 64, h := 32, xy := none, data := [0, 1, 2, 3, 4, 5] },
+       .setGfx 5 { kind := .rgb, w := 64, h := 32, xy := none, data := [0, 1, 2, 3, 4, 5] }] :=
+  example_fact_3
+
+/-! ## round trip: messages → lines → messages (C01 and C02 composed)
+
+For messages of C01's domain `inDomainIn` the lines the encoder writes lie in C02's domain `inDomainLines`
+(`enc_in_domain`), so `dec_sound` applies to them and, with C01's `enc_sound`, the decoder returns messages with exactly
+the effects of the messages that were encoded (`roundtrip_in`).  The comparison is in EFFECTS (`Spec.In.effectsOfIn`), i.e.
+modulo the normal forms of Spec/PanelIn.lean: one returned message per line instead of the original grouping; colours as
+2-bit levels; `normText` (value / font size / header bar / pair mode / scale ranges where meaningless); X/Y without offset
+flag; FLAG ids as canonical numerals and values as Booleans; calibration payload in the C07 normal form; enum arguments
+modulo 2^32.
+
+`inDomainIn` alone is NOT enough — two places need `roundtripGuard` (decidable), and without it the statements are false:
+* a FLAG register id must be empty or a protocol numeral `< 2^32` (`Flag#4294967296=1` is outside `inDomainLines`:
+  `enc_in_domain_flag_counterexample`; beyond 64 bits `Atoi` clamps the id and the round trip itself fails:
+  `roundtrip_in_unguarded_counterexample`);
+* normalising a calibration payload twice must equal normalising it once (`normPayload (normPayload j) = normPayload j`;
+  true of every valid UTF-8 string — `calibration_guard_of_validUtf8` — but for the invalid `E2 80 ⏎ 85 41` joining the trimmed lines
+  creates the white-space rune U+2005 at the front, which the next normalisation strips:
+  `roundtrip_in_calibration_counterexample`). -/
+
+/-- `Spec.In.roundtripGuard` (decidable): FLAG ids are protocol numerals, calibration payloads are stable under the C07 normal form -/
+abbrev roundtripGuard := Spec.In.roundtripGuard
+
+/-- the encoder's lines lie in the decoder's domain and deliver no all-default image -/
+theorem enc_in_domain (O : Oracles) (ms : List InMsg) (h : inDomainIn O ms = true) (hg : roundtripGuard ms = true) :
+    inDomainLines O (encIn O ms) = true ∧ noBlankImage O none (encIn O ms) = true :=
+  EncDom.enc_in_domain_all O ms h hg
+
+/-- **round trip** (unbounded in messages, states, ids): decoding the encoder's lines gives messages with exactly the
+effects of the original messages, in order -/
+theorem roundtrip_in (O : Oracles) (ms : List InMsg) (h : inDomainIn O ms = true) (hg : roundtripGuard ms = true) :
+    ∃ out, decInE O (encIn O ms) = .ok out ∧ out.flatMap effectsOfMsgOpt = ms.flatMap effectsOfIn := by
+  obtain ⟨h1, h2⟩ := enc_in_domain O ms h hg
+  obtain ⟨out, hd, he⟩ := dec_sound O (encIn O ms) h1 h2
+  exact ⟨out, hd, by rw [he, EncSound.enc_sound_all O ms h]⟩
+
+/-- **the calibration half of the guard holds of every valid UTF-8 payload** (`Strip.validUtf8` = Go `utf8.ValidString`;
+protobuf strings are valid UTF-8): the C07 normal form of a valid UTF-8 text is trimmed, so normalising it again changes
+nothing (`Strip.strip_idem`, Lemmas/StripIdem.lean) -/
+theorem calibration_guard_of_validUtf8 (j : Bytes) (h : Strip.validUtf8 j = true) : Spec.In.rtCalOk j = true := by
+  unfold Spec.In.rtCalOk
+  rw [beq_iff_eq]
+  exact Strip.strip_idem j h (C07.strip_no_lf j)
+
+example : Strip.validUtf8 (asc "{\n  \"a\": 1 \n}") = true ∧ Spec.In.rtCalOk (asc "{\n  \"a\": 1 \n}") = true ∧
+    Strip.validUtf8 [0xE2, 0x80, 0x0A, 0x85, 0x41] = false ∧ Spec.In.rtCalOk [0xE2, 0x80, 0x0A, 0x85, 0x41] = false := by decide
+
+/-- `enc_in_domain` without the guard is false: an all-digit FLAG id of 2^32 is in `inDomainIn`, its line is `outside`
+(the round trip itself still holds for this id: it fits `Atoi`) -/
+theorem enc_in_domain_flag_counterexample :
+    inDomainIn default [{ registers := [{ reg := 1, id := asc "4294967296", value := 1 }] }] = true ∧
+    roundtripGuard [{ registers := [{ reg := 1, id := asc "4294967296", value := 1 }] }] = false ∧
+    encIn default [{ registers := [{ reg := 1, id := asc "4294967296", value := 1 }] }] = [asc "Flag#4294967296=1"] ∧
+    inDomainLines default [asc "Flag#4294967296=1"] = false ∧
+    decodedEffects default [asc "Flag#4294967296=1"] = [.reg .flag (asc "4294967296") 1] :=
+  enc_in_domain_flag_counterexample_fact
+
+/-- **`roundtrip_in` without the guard is false**: a FLAG id beyond 64 bits comes back as `MaxInt64` -/
+theorem roundtrip_in_unguarded_counterexample :
+    ¬ (∀ (O : Oracles) (ms : List InMsg), inDomainIn O ms = true →
+        ∃ out, decInE O (encIn O ms) = .ok out ∧ out.flatMap effectsOfMsgOpt = ms.flatMap effectsOfIn) := by
+  intro h
+  obtain ⟨out, h1, h2⟩ := h default hugeFlag hugeFlag_dom_fact
+  have hd := hugeFlag_effects_fact
+  unfold decodedEffects at hd
+  rw [h1] at hd
+  simp only [] at hd
+  rw [hd] at h2
+  exact absurd h2 hugeFlag_ne_fact
+
+/-- the calibration clause of the guard: for a payload that is not valid UTF-8 the line is outside the decoder's domain
+and the round trip fails (the decoded payload normalises to `A`, the original to `E2 80 85 41`) -/
+theorem roundtrip_in_calibration_counterexample :
+    inDomainIn default badCal = true ∧ roundtripGuard badCal = false ∧
+    encIn default badCal = [asc "SetCalibrationProfile=" ++ [0xE2, 0x80, 0x85, 0x41]] ∧
+    inDomainLines default (encIn default badCal) = false ∧
+    decodedEffects default (encIn default badCal) = [.cmd (.setCalibrationProfile [0x41])] ∧
+    badCal.flatMap effectsOfIn = [.cmd (.setCalibrationProfile [0xE2, 0x80, 0x85, 0x41])] :=
+  roundtrip_in_calibration_counterexample_fact
+
+example : inDomainIn default rtSample = true ∧ roundtripGuard rtSample = true := example_fact_4
+
+example : ∃ out, decInE default (encIn default rtSample) = .ok out ∧ (out.flatMap effectsOfMsgOpt).length = 22 := by
+  obtain ⟨out, h1, h2⟩ := roundtrip_in default rtSample rtSample_dom_fact rtSample_guard_fact
+  exact ⟨out, h1, by rw [h2]; exact rtSample_len_fact⟩
+
+/-! ## the tie between the hand-written byte matchers and the regular expressions of the Go source
+
+`Gen.regex_*_src` are regenerated from `converterFunctions.go` on every run.  `regex_sources_tie` pins all six
+inbound patterns literally (an edit of any character of a pattern in the Go source breaks this obligation);
+`regex_keywords_tie` reads the alternation list of the first group out of each regenerated source
+(`RegexAlts.altsOf`) and equates it with the keyword table the matcher uses — same keywords, same order (Go
+alternation is leftmost-first, `firstKw` takes the first table entry that is a prefix).  The behaviour of the rest of
+each pattern (classes, anchors, `.` excludes LF) is correspondence-tested against the real `regexp` values by the
+bounded-exhaustive `din.match` records. -/
+
+/-- the six regular expressions of the inbound decoder in the current source are literally the ones the byte matchers
+of `Model/DecIn.lean` were written for -/
+theorem regex_sources_tie :
+    Gen.regex_cmd_src = src_cmd ∧ Gen.regex_gfx_src = src_gfx ∧ Gen.regex_genericDual_src = src_genericDual ∧
+    Gen.regex_genericSingle_src = src_genericSingle ∧ Gen.regex_genericSingleStr_src = src_genericSingleStr ∧
+    Gen.regex_registers_src = src_registers :=
+  regex_sources_tie_fact
+
+/-- the alternation lists inside the regenerated sources are the keyword tables of the matchers, in the same order -/
+theorem regex_keywords_tie :
+    RegexAlts.altsOf Gen.regex_cmd_src 0 = kwCmd ∧ RegexAlts.altsOf Gen.regex_gfx_src 0 = kwGfx ∧
+    RegexAlts.altsOf Gen.regex_genericSingle_src 0 = kwSingle ∧ RegexAlts.altsOf Gen.regex_genericSingleStr_src 0 = kwStr ∧
+    RegexAlts.altsOf Gen.regex_registers_src 0 = kwReg ∧
+    RegexAlts.altsOf Gen.regex_genericDual_src 0 = [asc "PanelBrightness"] :=
+  regex_keywords_tie_fact
+
+/-- the header group of `regex_gfx` lists the header alternative first and the empty alternative second, the offset
+group likewise (leftmost-first: a header is taken when present) -/
+theorem regex_gfx_optional_groups :
+    RegexAlts.altsOf Gen.regex_gfx_src 3 = [asc "/([0-9]+),([0-9]+)x([0-9]+)(,([0-9]+),([0-9]+)|)", []] :=
+  regex_gfx_optional_groups_fact
+
+/-- non-vacuity: the tables are the non-trivial ones and the matchers use them -/
+example : kwCmd.length = 5 ∧ kwGfx.length = 3 ∧ kwSingle.length = 10 ∧ kwStr.length = 3 ∧ kwReg.length = 4 ∧
+    matchCmd (asc "HWCrawADCValues#1=0") = some [asc "HWCrawADCValues#1=0", asc "HWCrawADCValues#", asc "1", asc "0"] ∧
+    matchReg (asc "Flag#12=1") = some [asc "Flag#12=1", asc "Flag#", asc "12", asc "1"] ∧
+    matchSingle (asc "SleepTimer=5") = some [asc "SleepTimer=5", asc "SleepTimer", asc "5"] := by decide
 
 end RawPanelVerif.C02
